@@ -1779,6 +1779,11 @@ func (fr *Frame) loopEntry(b *ssa.BasicBlock, phis []*ssa.Phi, preds []*ssa.Basi
 		if ph.Comment != "" {
 			curPhis[ph.Comment] = v
 		}
+		if isRangeIndexPhi(ph) {
+			// the index of a `range` loop over a slice/array/string as go/ssa builds it: starts at -1, is only
+			// incremented by one, and the increment is compared with the length before use (it cannot wrap)
+			fc.B.Assert(implies(reach, "(and (>= "+v.T+" (- 1)) (< "+v.T+" 9223372036854775807))"))
+		}
 	}
 	for _, inv := range invs {
 		env := fr.invEnv(b, curPhis, st)
@@ -1788,6 +1793,42 @@ func (fr *Frame) loopEntry(b *ssa.BasicBlock, phis []*ssa.Phi, preds []*ssa.Basi
 	if len(invs) == 0 && fr.isTop && fc.Mode == "contract" {
 		fc.B.Note(fmt.Sprintf("loop #%d of %s has no invariant (loop-carried values unconstrained)", ord, fr.fn.Name()))
 	}
+}
+
+// isRangeIndexPhi: phi [-1, phi+1] named rangeindex (the index variable go/ssa creates for a range loop)
+func isRangeIndexPhi(ph *ssa.Phi) bool {
+	if ph.Comment != "rangeindex" || len(ph.Edges) != 2 {
+		return false
+	}
+	var hasInit, hasInc bool
+	for _, e := range ph.Edges {
+		switch x := e.(type) {
+		case *ssa.Const:
+			if x.Value != nil && x.Value.ExactString() == "-1" {
+				hasInit = true
+			}
+		case *ssa.BinOp:
+			if x.Op == token.ADD && x.X == ssa.Value(ph) {
+				if c, ok := x.Y.(*ssa.Const); ok && c.Value != nil && c.Value.ExactString() == "1" {
+					hasInc = true
+				}
+			}
+		}
+	}
+	if !hasInit || !hasInc {
+		return false
+	}
+	// the header ends in `if inc < length`: the value carried around the back edge was below a length
+	ifi, ok := ph.Block().Instrs[len(ph.Block().Instrs)-1].(*ssa.If)
+	if !ok {
+		return false
+	}
+	cmp, ok := ifi.Cond.(*ssa.BinOp)
+	if !ok || cmp.Op != token.LSS {
+		return false
+	}
+	inc, ok := cmp.X.(*ssa.BinOp)
+	return ok && inc.Op == token.ADD && inc.X == ssa.Value(ph)
 }
 
 // cellStableIn: the cell behind address a is only read, stored to directly, or addressed by field/element, and
